@@ -17,6 +17,7 @@ import (
 	"strings"
 	"sync"
 	"time"
+	"unicode/utf8"
 
 	rt "github.com/arnodel/golua/runtime"
 
@@ -514,5 +515,94 @@ func libFamilies(tier string) []*core.Family {
 			return out
 		},
 	}
-	return []*core.Family{fam}
+	return []*core.Family{fam, utf8Family(tier)}
+}
+
+// ---- e-lib-utf8: every code point as (last) character of a string argument
+//
+// The edge-value pool is ASCII only.  This family gives every in-memory
+// function that takes a string (string.*, utf8.*, tostring, tonumber, load,
+// table.concat, ...) the strings <cp>, "a"<cp> and <cp>"a" for EVERY code
+// point cp of a range (quick: planes 0 and 1; thorough: all
+// 0x110000, surrogates included - utf8.char(cp, true) spells them), one block
+// of 2048 code points per case.  The oracle is C04's: a value or a Lua error,
+// never a Go panic.
+const utf8Block = 2048
+
+func utf8Fns() []libFn {
+	var out []libFn
+	for _, f := range getLibFns() {
+		p := f.path
+		switch {
+		case strings.HasPrefix(p, "string.") && p != "string.rep" && p != "string.dump",
+			strings.HasPrefix(p, "utf8."),
+			p == "tostring", p == "tonumber", p == "load", p == "table.concat", p == "rawlen", p == "select", p == "type", p == "error", p == "math.tointeger":
+			out = append(out, f)
+		}
+	}
+	return out
+}
+
+func utf8Family(tier string) *core.Family {
+	maxCP := uint64(0x20000)
+	if tier == "thorough" {
+		maxCP = 0x110000
+	}
+	const name = "e-lib-utf8"
+	nBlocks := maxCP / utf8Block
+	decode := func(i uint64) (libFn, uint64) {
+		fns := utf8Fns()
+		n := uint64(len(fns))
+		return fns[i%n], (i / n) * utf8Block
+	}
+	execFuncs[name] = func(i uint64) runRes {
+		f, lo := decode(i)
+		m := host.NewMachine(false)
+		defer m.Close()
+		self := resolve(m, f.path)
+		if _, ok := self.TryCallable(); !ok {
+			return runRes{Status: "harness", Err: "function " + f.path + " not found in fresh runtime"}
+		}
+		pcall := m.R.GlobalEnv().Get(rt.StringValue("pcall"))
+		def := rt.RuntimeContextDef{HardLimits: rt.RuntimeResources{Cpu: libCPU, Memory: libMem}}
+		calls := 0
+		for cp := lo; cp < lo+utf8Block; cp++ {
+			var buf [4]byte
+			var c string
+			if cp >= 0xD800 && cp <= 0xDFFF {
+				// a surrogate, encoded the way utf8.char(cp, true) does
+				c = string([]byte{0xED, byte(0x80 | (cp>>6)&0x3F), byte(0x80 | cp&0x3F)})
+			} else {
+				c = string(buf[:utf8.EncodeRune(buf[:], rune(cp))])
+			}
+			for _, s := range []string{c, "a" + c, c + "a"} {
+				args := []rt.Value{self, rt.StringValue(s)}
+				if f.path == "string.format" || f.path == "string.find" || f.path == "string.match" || f.path == "string.gsub" || f.path == "string.gmatch" {
+					// the string as subject and as format / pattern
+					args = []rt.Value{self, rt.StringValue(s), rt.StringValue(s), rt.StringValue(s)}
+				}
+				o := m.Call(pcall, args, &def)
+				calls++
+				if o.Status == "gopanic" {
+					return runRes{Status: "gopanic", Err: o.Err, Aux: fmt.Sprintf("first failing argument: %q (U+%04X)", s, cp)}
+				}
+			}
+		}
+		return runRes{Status: "ok", Results: []string{fmt.Sprint(calls)}}
+	}
+	return &core.Family{
+		Name: name, Size: nBlocks * uint64(len(utf8Fns())), HangSeconds: 3600, BudgetSeconds: 240,
+		Show: func(i uint64) string {
+			f, lo := decode(i)
+			return fmt.Sprintf("pcall(%s, s) for s in {c, \"a\"..c, c..\"a\"}, c = every code point U+%04X..U+%04X, in {cpu=1e6, memory=64MB}", f.path, lo, lo+utf8Block-1)
+		},
+		Run: func(i uint64) core.Outcome {
+			f, lo := decode(i)
+			r := remote(name, i, 120*time.Second)
+			label := fmt.Sprintf("fn=%s cp=U+%04X..U+%04X", f.path, lo, lo+utf8Block-1)
+			out := judge(name, label, true, r, nil, true)
+			out.Sig = core.Hash64(f.path + "|" + r.Status)
+			return out
+		},
+	}
 }
